@@ -467,7 +467,9 @@ fn run_single_program(
 
             // our strings do not have '\x00' bytes in them,
             // we can use CString::new().expect() safely.
+            // a `NAME=value cmd` prefix wins over an exported NAME
             let mut c_envs: Vec<_> = env::vars()
+                .filter(|(k, _)| !cl.envs.contains_key(k))
                 .map(|(k, v)| {
                     CString::new(format!("{}={}", k, v).as_str()).expect("CString error")
                 })
